@@ -17,6 +17,16 @@ def keys(smarts):
     return sorted(out)
 
 
+def skel_keys(smarts):
+    out = []
+    for s in smarts:
+        x, y = s.split(">>")
+        k = chem.skeleton(x) + ">>" + chem.skeleton(y)
+        if k not in out:
+            out.append(k)
+    return sorted(out)
+
+
 def variant_case(inp):
     from synkit.IO.chem_converter import rsmi_to_its
     from synkit.Graph.ITS.its_decompose import get_rc
@@ -42,8 +52,10 @@ def variant_case(inp):
             try:
                 R = reactlib.make_reactor(s, tpl, invert=inp["invert"], strategy=st, mode=mode, automorphism=bool(inp.get("exact")))
                 rec[st] = keys(R.smarts_list)
+                rec[st + "_sk"] = skel_keys(R.smarts_list)
                 R2, _ = reactlib.raw_reactor(R, s, tpl, invert=inp["invert"], strategy=st, mode=mode)
                 rec["raw_" + st] = keys(R2.smarts_list)
+                rec["raw_" + st + "_sk"] = skel_keys(R2.smarts_list)
                 rec["model_" + st] = {}
                 if set(rec[st]) != set(rec["raw_" + st]):
                     # diagnosis: is the difference exactly what the pruning algorithm as implemented (Prune.tla) produces?
